@@ -43,8 +43,11 @@ def main():
             if shard and idx % shard[1] != shard[0]:
                 continue
             verdict, backend, ms, detail = smt.check(ob, ax, budget)
-            out["obligations"].append({"name": ob.name, "kind": ob.kind, "props": ob.props, "verdict": verdict,
-                                       "backend": backend, "ms": ms, "detail": (detail or "")[:4000], "info": ob.info})
+            rec = {"name": ob.name, "kind": ob.kind, "props": ob.props, "verdict": verdict,
+                   "backend": backend, "ms": ms, "detail": (detail or "")[:4000], "info": ob.info}
+            if req.get("cross") and verdict == "proved":
+                rec["cross"] = smt.cross_check(ob, ax, int(req.get("cross_s", 10)))
+            out["obligations"].append(rec)
             relevant = not (ob.kind == "post" and ob.props and req.get("pid") and req["pid"] not in ob.props)
             if req.get("canary") and verdict != "proved" and relevant and ob.name.split("[")[0] not in (req.get("ignore") or []) \
                     and ob.name not in (req.get("ignore") or []):
